@@ -100,7 +100,8 @@ def proof_side(pid, res, tier):
         txt = re.sub(r'"(?:[^"\\]|\\.)*"', '""', txt)
         for m in FORBIDDEN.finditer(txt):
             bad.append("%s: %s" % (mod, m.group(0).strip()))
-        if pid not in NATIVE_OK and re.search(r"\bnative_decide\b", txt):
+        # native_decide may occur only in C04's own modules (Props/C04, Certs/*); other properties may import them
+        if re.search(r"\bnative_decide\b", txt) and not (mod == "Algobra.Props.C04" or mod.startswith("Algobra.Certs.")):
             bad.append("%s: native_decide" % mod)
     info["modules"] = sorted(seen)
     info["forbidden"] = bad
@@ -121,7 +122,11 @@ def proof_side(pid, res, tier):
         if ax is None:
             continue
         extra = set(ax) - ALLOWED_AXIOMS
-        if pid in NATIVE_OK:
+        # the assembly corollaries "for every field Define returns over the real database" (Props/C01.lean)
+        # import C04's table sweeps and inherit their native_decide axioms (DESIGN.md §2); nothing else may
+        if pid in NATIVE_OK or n.startswith("Algobra.C01."):
+            if any("._native.native_decide.ax_" in a for a in ax):
+                info.setdefault("native_dependent", []).append(n)
             extra -= NATIVE_AXIOMS
             # Lean 4.33 records each native_decide as an axiom `<thm>._native.native_decide.ax_…`
             extra = {a for a in extra if "._native.native_decide.ax_" not in a}
